@@ -57,6 +57,9 @@ func coreC19(tier string) []RunSpec {
 	for k := 0; k < 3; k++ {
 		out = append(out, RunSpec{Profile: "core:token-with-respelled-mint-url", Params: map[string]int{"scenario": 8, "fee": 0, "k": k}})
 	}
+	for k := 0; k < 2; k++ {
+		out = append(out, RunSpec{Profile: "core:restore-at-batch-boundary", Params: map[string]int{"scenario": 9, "fee": 0, "k": k}})
+	}
 	// known finding: SIG_ALL token from an untrusted mint, swap-to-trusted fails, received again
 	out = append(out, RunSpec{Profile: "core:sigall-crossmint-again", Params: map[string]int{"scenario": 3, "mints": 2, "fee": 0, "fee2": 0}})
 	return out
@@ -192,6 +195,9 @@ func runC19(rc *RunCtx) {
 		return
 	case 4:
 		c19SpendAllRestore(ww, rc.P("melt", 0) == 1)
+		return
+	case 9:
+		c19ExactBatch(ww, uint32(100*(1+rc.P("k", 0))))
 		return
 	case 8:
 		// a token names the wallet's own mint by another spelling of its URL (trailing slash, upper-case
@@ -516,6 +522,55 @@ func c19SpendAllRestore(ww *WW, viaMelt bool) {
 	})
 	ww.CheckCounters(checked)
 	ww.restoreWallet(rw, false, "everything spent, second restore")
+	ww.rc.Nontrivial = true
+}
+
+// c19ExactBatch: the seed has used exactly target outputs on its keyset (a multiple of the restore
+// scan's batch size of 100) when it is restored; the restored wallet continues and is restored again.
+func c19ExactBatch(ww *WW, target uint32) {
+	w := ww.Wallets[0]
+	mint := mintNameOfURL(ww.node(w).Mint)
+	ww.step = 0
+	ww.rc.S.MaxSteps += 60000
+	counter := func() uint32 {
+		if ks := ww.node(ww.Wallets[0]).Inner.GetKeyset(ww.W.ActiveKeyset(mint).ID); ks != nil {
+			return ks.Counter
+		}
+		return 0
+	}
+	mintN := func(who string, amount uint64, label string) {
+		ww.step++
+		ww.op(label)
+		ww.W.WalletOp(who, ww.name("eb"), nil, func(wl *wallet.Wallet) {
+			q, e := wl.RequestMint(amount, ww.mintURL(mint))
+			if e != nil {
+				return
+			}
+			if mq := ww.W.Book.Mint(mint).MQ[q.Quote]; mq != nil {
+				ww.W.LN.PayExternal(mq.Hash)
+			}
+			wl.MintTokens(q.Quote)
+		})
+	}
+	for guard := 0; counter() < target && guard < 80; guard++ {
+		rem := target - counter()
+		if rem > 6 {
+			rem = 6
+		}
+		mintN(w, uint64(1)<<rem-1, "w.mint(exact)") // an amount with rem one-bits: rem outputs
+	}
+	if counter() != target {
+		return // some operation did not come about: trivial run
+	}
+	ww.rc.S.Probe("c19_exact_batch_boundary")
+	checked := ww.CheckCounters(0)
+	ww.restoreWallet(w, true, "used outputs = a multiple of the scan batch")
+	mintN(ww.Wallets[0], 5, "w.mint(after restore)")
+	checked = ww.CheckCounters(checked)
+	mintN(ww.Wallets[0], 9, "w.mint(after restore)")
+	ww.CheckCounters(checked)
+	ww.Settle()
+	ww.restoreWallet(ww.Wallets[0], false, "second restore after a batch boundary")
 	ww.rc.Nontrivial = true
 }
 
